@@ -29,10 +29,10 @@ BOUNDS = {
 ASSUMPTIONS = ["A-FP", "A-NP incl. in-place ufunc semantics (out=) of the object-array model", "formatting runs with its output discarded (C-level %g on the NaN payload)",
                "proxies pickle by reference, so the real __reduce__ of Scalar/FixedArray/Quantity is what is exercised"]
 CHUNK = 10
-POOL = ["s_two_cats", "a_np_limited", "a_list_limited", "s_m", "s_cm_depth", "s_degC", "s_m2", "s_cm2", "s_per_s", "s_empty", "s_unknown", "a_list_m", "a_tuple_cm", "a_np_m", "a_np_cm2", "a_list_m2",
+POOL = ["s_s.m", "f_derived", "f_empty", "s_two_cats", "a_np_limited", "a_list_limited", "s_m", "s_cm_depth", "s_degC", "s_m2", "s_cm2", "s_per_s", "s_empty", "s_unknown", "a_list_m", "a_tuple_cm", "a_np_m", "a_np_cm2", "a_list_m2",
         "f_list_m", "f_np_cm", "fs_in", "fs_frac_in"]
 BINOPS = ["add", "sub", "mul", "div", "fdiv", "radd_num", "rdiv_num", "mul_num", "eq", "ne", "lt", "le"]
-UNOPS = ["GetValue_other", "GetValue_own", "CreateCopy", "CreateCopy_unit", "CreateCopy_value", "IsValid", "CheckValidity", "str", "repr", "GetFormatted",
+UNOPS = ["pickle_all", "GetValue_other", "GetValue_own", "CreateCopy", "CreateCopy_unit", "CreateCopy_value", "IsValid", "CheckValidity", "str", "repr", "GetFormatted",
          "copy", "deepcopy", "pickle", "hash", "db.Convert", "ChangingIndex", "ChangingIndex_num", "ChangingIndex_keep", "IndexAsScalar", "FromScalars", "ConvertFractionValue",
          "ChangeScalars", "pow2", "neg_cmp", "GetValidUnits", "iter_len"]
 
@@ -81,6 +81,9 @@ def make_pool(V):
     if not db.IsValidCategory("c13 limited"):
         db.AddCategory("c13 limited", "length", min_value=-1e30, max_value=1e30)
     p = {}
+    p["s_s.m"] = Scalar(x[2], "s") * Scalar(2.0, "m")  # composing order not alphabetical
+    p["f_derived"] = FixedArray(2, [x[18], x[19]], "m") * FixedArray(2, [1.0, 1.0], "m")
+    p["f_empty"] = FixedArray.CreateEmptyArray(2, [x[20], x[21]])
     p["s_two_cats"] = Scalar.CreateWithQuantity(Quantity.CreateDerived(OrderedDict([("length", ["m", 1]), ("depth", ["cm", 1])])), x[0])
     p["a_np_limited"] = Array(_arr([x[13], x[12], x[1]]), "m", "c13 limited")
     p["a_list_limited"] = Array([x[9], x[8]], "cm", "c13 limited")
@@ -170,6 +173,15 @@ def apply_op(op, a, b, V):
         return copy.deepcopy(a)
     if op == "pickle":
         return pickle.loads(pickle.dumps(a))
+    if op == "pickle_all":
+        # history: every picklable pool member goes through a round trip in ONE process, in pool order, then in reverse order
+        bad = []
+        members = [(n, o) for n, o in _POOL_NOW[0].items() if type(o).__name__ in ("Scalar", "FixedArray")]
+        for n, o in members + members[::-1]:
+            back = pickle.loads(pickle.dumps(o))
+            if not (back == o) or back != o or back.GetUnit() != o.GetUnit() or back.GetCategory() != o.GetCategory():
+                bad.append(n)
+        return bad
     if op == "hash":
         return hash(a) is not None
     if op == "db.Convert":
@@ -218,7 +230,11 @@ def apply_op(op, a, b, V):
 EXPECTED_EXC = (ZeroDivisionError, TypeError, ValueError, NotImplementedError, AttributeError, pickle.PicklingError)
 
 
+_POOL_NOW = [None]
+
+
 def _step(pool, op, a, b, V):
+    _POOL_NOW[0] = pool
     before = {n: snap_value(o) for n, o in pool.items()}
     owned = {n: o.GetAbstractValue() for n, o in pool.items()}
     exc = None
@@ -258,6 +274,8 @@ def _run(cfg, V):
     out = {"exc": exc, "changed": changed, "same_containers": same}
     a = pool[cfg["a"]]
     op = cfg["op"]
+    if exc is None and op == "pickle_all":
+        out["pickle_all_bad"] = res
     if exc is None:
         if op in ("add", "sub", "mul", "div", "fdiv", "radd_num", "rdiv_num", "mul_num", "CreateCopy", "CreateCopy_unit", "CreateCopy_value", "ChangingIndex",
                   "ChangingIndex_num", "ChangingIndex_keep", "IndexAsScalar", "FromScalars", "pow2") and res is not None:
@@ -268,7 +286,7 @@ def _run(cfg, V):
             if isinstance(rv_, (list, numpy.ndarray)) and not op.startswith("CreateCopy"):
                 out["fresh_container"] = all(rv_ is not o.GetAbstractValue() for o in pool.values())
         if op in ("copy", "deepcopy", "CreateCopy", "pickle"):
-            picklable = isinstance(a, (Scalar,)) or type(a).__name__ == "FixedArray"
+            picklable = type(a).__name__ in ("Scalar", "FixedArray")
             if op != "pickle" or picklable:
                 out["copy_equal"] = bool(res == a) and not bool(res != a)
                 out["copy_same_unit"] = res.GetUnit() == a.GetUnit() and res.GetCategory() == a.GetCategory()
@@ -290,9 +308,11 @@ def props(cfg, T, obs):
             return []  # zero divisor while building the pool
         return [("no unexpected exception type from a public operation", False)]
     P = [("copy, deepcopy, CreateCopy() and comparison/formatting operations succeed on every pool member",
-          not (cfg["op"] in ("copy", "deepcopy", "CreateCopy", "CreateCopy_value", "str", "repr", "GetFormatted", "eq", "ne", "IsValid", "GetValue_own") and obs["exc"] is not None)),
+          not (cfg["op"] in ("copy", "deepcopy", "CreateCopy", "CreateCopy_value", "str", "repr", "GetFormatted", "eq", "ne", "IsValid", "GetValue_own", "pickle_all") and obs["exc"] is not None)),
          ("no operand changed (values, container contents, unit, category, dimension, fraction parts)", obs["changed"] == []),
          ("every value object still holds the very container it was given", bool(obs["same_containers"]))]
+    if "pickle_all_bad" in obs:
+        P.append(("pickle round trips of all Scalars/FixedArrays of the pool in one process are equal (no cross-talk between them)", obs["pickle_all_bad"] == []))
     if "fresh" in obs:
         P.append(("the result is a new object", bool(obs["fresh"]) and obs.get("fresh_container", True)))
     if "copy_equal" in obs:
